@@ -170,6 +170,8 @@ pub enum Step {
     DropRange { k: u8 },
     /// take a snapshot the writer has published, then get every key and scan
     Read,
+    /// the seqno high-water marks may never be below a write that was acknowledged before the call
+    ReadSeqnos,
 }
 
 #[derive(Clone, Debug, Serialize, Deserialize)]
@@ -291,6 +293,17 @@ fn run_step(sh: &Shared, step: &Step, tid: usize) {
             let key = sh.keys[*k as usize].clone();
             if let Err(e) = t.drop_range::<Vec<u8>, _>(key.clone()..=key) {
                 err("drop_range", format!("{e:?}"));
+            }
+        }
+        Step::ReadSeqnos => {
+            let p = sh.published.load(Ordering::SeqCst);
+            let h = t.get_highest_seqno();
+            // published = seqno + 1 of the last acknowledged write (the preload publishes too)
+            if p > 0 && h.is_none_or(|h| h + 1 < p) {
+                sh.errors.lock().unwrap().push((
+                    "highest-seqno-below-acknowledged-write".into(),
+                    format!("thread {tid}: get_highest_seqno() = {h:?} although a write with seqno {} had been acknowledged before the call", p - 1),
+                ));
             }
         }
         Step::Read => {
@@ -663,11 +676,27 @@ fn preemptions(decs: &[Decision], upto: usize) -> usize {
 }
 
 pub fn run(tier: &str, threads: usize, max_wall_s: f64) -> Outcome {
+    run_scenarios(tier, threads, max_wall_s, scenarios(tier), "C06")
+}
+
+/// C18's concurrent part: the high-water marks while a flush moves data from memtable to table.
+pub fn scenarios_c18() -> Vec<Scenario> {
+    use crate::ops::{Op, Wm};
+    let cfg = TreeCfg::small(crate::driver::keys_ab());
+    vec![Scenario {
+        name: "C18-writer-flusher-seqno-reader".into(),
+        cfg,
+        preload: vec![Op::MultiPut { ks: vec![0, 1] }, Op::Flush { w: Wm::Zero }, Op::Put { k: 0, big: false }],
+        threads: vec![vec![Step::Put { k: 1 }], vec![Step::RotateFlush { safe_wm: false }], vec![Step::ReadSeqnos, Step::ReadSeqnos]],
+        writer: 0,
+    }]
+}
+
+pub fn run_scenarios(tier: &str, threads: usize, max_wall_s: f64, scs: Vec<Scenario>, property: &str) -> Outcome {
     let start = std::time::Instant::now();
     let max_bound: usize = if tier == "quick" { 2 } else { 3 };
     let root = crate::hx::scratch_root().join("sched");
     crate::hx::fresh_dir(&root);
-    let scs = scenarios(tier);
     let n_sc = scs.len();
     let mut out = Outcome {
         executions: 0,
@@ -707,6 +736,7 @@ pub fn run(tier: &str, threads: usize, max_wall_s: f64) -> Outcome {
                 let (sc, work, inflight, deferred, found, mach, execs, decs, steps, capped, outcomes) =
                     (sc.clone(), work.clone(), inflight.clone(), deferred.clone(), found.clone(), mach.clone(), execs.clone(), decs.clone(), steps.clone(), capped.clone(), outcomes.clone());
                 let dir = root.join(format!("w{w}"));
+                let property = property.to_string();
                 hs.push(std::thread::spawn(move || loop {
                     let item = {
                         let mut wl = work.lock().unwrap();
@@ -740,7 +770,7 @@ pub fn run(tier: &str, threads: usize, max_wall_s: f64) -> Outcome {
                     for (sig, msg) in r.violations {
                         found.lock().unwrap().push(SchedReplay {
                             engine: "sched".into(),
-                            property: "C06".into(),
+                            property: property.clone(),
                             scenario: (*sc).clone(),
                             schedule: schedule.clone(),
                             sig,
